@@ -570,7 +570,9 @@ class DatasetBuilder:
                     if pa.types.is_null(col.type):
                         # an empty removal frame has no inferable ID type
                         col = col.cast(id_col.type)
-                    nums = pc.index_in(col, id_col)
+                    # resolve like relationship IDs: an ID that the entity ID type
+                    # cannot represent is unknown (index_in raises on such casts)
+                    nums = self._resolve_entity_ids(ent, col, etbl)
                     rtbl_cols[num_col] = nums
                 elif cname.endswith("_num"):
                     rtbl_cols[cname] = remove.column(cname)
